@@ -5,7 +5,7 @@
    all matching modes, all target-label/threshold lists.
    Only statements, `exact`, Print Assumptions and non-vacuity examples here. *)
 From Coq Require Import List Bool Arith ZArith QArith Lia Lqa.
-From PE Require Import Base.QUtil Model.Clear Proofs.ClearProofs.
+From PE Require Import Base.QUtil Model.Clear Proofs.ClearProofs Proofs.ClearBounds.
 Import ListNotations.
 Open Scope Q_scope.
 
@@ -237,6 +237,30 @@ Print Assumptions C05_prev_tp_by_own_label_partial.
 (* ---------------------------------------------------------------------------------------------
    Non-vacuity: concrete histories that satisfy the hypotheses and exercise the interesting branches
    --------------------------------------------------------------------------------------------- *)
+(* ---------------------------------------------------------------------------------------------
+   range of the scores: whenever no more TPs are counted than there are ground truths (what a one-to-one
+   matcher guarantees), MOTA lies in [0, 1]; it is 1 exactly when every ground truth is tracked with no FP
+   and no switch; the ground-truth-weighted total of _sum_clear lies in [0, 1] as well.
+   --------------------------------------------------------------------------------------------- *)
+Theorem C05_mota_unit_interval : forall m T numgt (h : list frame) x,
+  (c_tp (clear_counts m T h) <= numgt)%nat ->
+  k_mota (make_clear m T numgt h) = Some x -> 0 <= x <= 1.
+Proof. intros m T numgt h x Hle H. exact (mota_of_unit numgt (clear_counts m T h) x Hle H). Qed.
+Print Assumptions C05_mota_unit_interval.
+
+Theorem C05_mota_one_iff : forall m T numgt (h : list frame),
+  let a := clear_counts m T h in
+  (c_tp a <= numgt)%nat -> (0 < numgt)%nat ->
+  (oq_eq (k_mota (make_clear m T numgt h)) (Some 1) <-> (c_tp a = numgt /\ c_fp a = 0 /\ c_sw a = 0)%nat).
+Proof. intros m T numgt h a Hle Hpos. exact (mota_of_one_iff numgt a Hle Hpos). Qed.
+Print Assumptions C05_mota_one_iff.
+
+Theorem C05_sum_clear_mota_unit_interval : forall (ks : list clear) x,
+  Forall wf_clear ks -> Forall (fun k => (k_tp k <= k_numgt k)%nat) ks ->
+  fst (fst (sum_clear ks)) = Some x -> 0 <= x <= 1.
+Proof. exact sum_clear_mota_unit. Qed.
+Print Assumptions C05_sum_clear_mota_unit_interval.
+
 Definition ex_T : targets := [(1%nat, 1); (6%nat, 1 # 2)].
 Definition R (e lab g : nat) (s : Q) : result := mkR e lab (Some (mkG g lab false true s)).
 
@@ -279,8 +303,8 @@ Example C05_nonvacuous_sum :
   let ks := [make_clear Dist ex_T 2 [[R 0 1 0 0]; [R 0 1 0 (1#2)]; [R 0 1 0 (1#2)]];
              make_clear Dist ex_T 0 [[]; [mkR 3 6 None]];
              make_clear Dist ex_T 4 [[]; [mkR 3 6 None]]] in
-  Forall wf_clear ks /\
+  Forall wf_clear ks /\ Forall (fun k => (k_tp k <= k_numgt k)%nat) ks /\
   oq_eq (fst (fst (sum_clear ks))) (Some (2 # 6)) /\ oq_eq (snd (fst (sum_clear ks))) (Some (1 # 4)) /\ snd (sum_clear ks) = 0%nat.
 Proof.
-  cbv zeta. split; [repeat constructor; apply make_clear_wf|]. vm_compute. repeat split; reflexivity.
+  cbv zeta. split; [repeat constructor; apply make_clear_wf|]. split; [repeat constructor; vm_compute; lia|]. vm_compute. repeat split; reflexivity.
 Qed.
